@@ -97,7 +97,24 @@ func (t T) scan(f *facts, parent int) {
 	}
 }
 
+// poke formats a malformed tree (an operand that is nil) under recover, the
+// way a server that recovers from handler panics would: whatever that call
+// does, it must not influence the formatting of later, valid trees.
+func poke() {
+	defer func() { recover() }()
+	bad := &pb.Query{Expr: &pb.Query_Expression{Value: &pb.Query_Expression_And_{And: &pb.Query_Expression_And{Exprs: []*pb.Query_Expression{
+		{Value: &pb.Query_Expression_Eq{Eq: &pb.Query_Expression_Equal{Column: "a", Value: "x"}}},
+		{Value: &pb.Query_Expression_Eq{Eq: &pb.Query_Expression_Equal{Column: "b", Value: "y"}}},
+		{Value: &pb.Query_Expression_Not_{Not: nil}}, nil}}}}}
+	queryparser.QueryToString(bad)
+}
+
+var pokes int
+
 func oracle(c *Case) error {
+	if pokes++; pokes%50 == 1 {
+		poke()
+	}
 	q := c.query()
 	var text string
 	if err := fix.Safe(func() error { text = queryparser.QueryToString(q); return nil }); err != nil {
@@ -202,7 +219,7 @@ func exhaustive(t *testing.T, depth int) {
 // ---------------------------------------------------------------- random
 
 var idents = []string{"a", "b", "c", "A", "col_1", "x9", "Zz_0", "count", "a_", "q"}
-var hostile = []string{"", "x", "\"", "\"\"", "\"a", "a\"", "\"a\"", "a\"\"b", "\n", "a\nb", "\r\n", "é", "日本", "💩", "\xff", "a\xffb", "\x00", " ", "  ", "\t",
+var hostile = []string{"\ufffd", "M\ufffdnchen", "say \"\ufffd\"\n", "\xc0\xa2", "a  b", "", "x", "\"", "\"\"", "\"a", "a\"", "\"a\"", "a\"\"b", "\n", "a\nb", "\r\n", "é", "日本", "💩", "\xff", "a\xffb", "\x00", " ", "  ", "\t",
 	"$1", ";", "( )", "&", "|", "^", "=", ",", "a = \"b\"", "\\", "\\\"", "'", strings.Repeat("\"", 7), strings.Repeat("q", 200)}
 
 // hugeBudget > 0 makes the next leaf drawn carry a very long value (set per
